@@ -8,6 +8,11 @@ use serde::{de::DeserializeOwned, Deserialize, Serialize};
 pub trait Fam: Serialize + DeserializeOwned + PartialEq + std::fmt::Debug + 'static {
     const NAME: &'static str;
     fn universe() -> Vec<Self>;
+    /// the larger value space of the thorough tier (systematically generated: all values of the
+    /// small types, all short sequences / subsets / field combinations of the composite ones)
+    fn universe_deep() -> Vec<Self> {
+        Self::universe()
+    }
 }
 
 macro_rules! fam {
@@ -19,49 +24,151 @@ macro_rules! fam {
             }
         }
     };
+    ($t:ty, $name:expr, $u:expr, deep $d:expr) => {
+        impl Fam for $t {
+            const NAME: &'static str = $name;
+            fn universe() -> Vec<Self> {
+                $u
+            }
+            fn universe_deep() -> Vec<Self> {
+                let mut v: Vec<Self> = $u;
+                v.extend($d);
+                v
+            }
+        }
+    };
 }
 
-fam!(i8, "i8", vec![i8::MIN, -1, 0, 1, i8::MAX]);
-fam!(i16, "i16", vec![i16::MIN, -129, -1, 0, 255, i16::MAX]);
-fam!(i32, "i32", vec![i32::MIN, -32769, 0, 65536, i32::MAX]);
-fam!(i64, "i64", vec![i64::MIN, i64::MIN + 1, -(1 << 53) - 1, -1, 0, 1 << 53, i64::MAX]);
-fam!(i128, "i128", vec![i128::MIN, i64::MIN as i128 - 1, i64::MIN as i128, -1, 0, u64::MAX as i128, u64::MAX as i128 + 1, i128::MAX]);
-fam!(u8, "u8", vec![0, 1, 127, 128, u8::MAX]);
-fam!(u16, "u16", vec![0, 256, u16::MAX]);
-fam!(u32, "u32", vec![0, 65536, u32::MAX]);
-fam!(u64, "u64", vec![0, 1, (1 << 53) + 1, i64::MAX as u64, i64::MAX as u64 + 1, u64::MAX]);
-fam!(u128, "u128", vec![0, u64::MAX as u128, u64::MAX as u128 + 1, 10u128.pow(38), u128::MAX]);
-fam!(f32, "f32", vec![0.0, -0.0, 1.0, -1.5, 0.1, f32::MIN_POSITIVE, f32::MAX, f32::MIN, 16777216.0, 1e-45, 3.4028235e38]);
-fam!(f64, "f64", vec![0.0, -0.0, 1.0, -1.5, 0.1, 1e21, 1e-7, f64::MIN_POSITIVE, 5e-324, f64::MAX, f64::MIN, 9007199254740993.0, 1.7976931348623157e308]);
+// generators for the deep universes ---------------------------------------------------------
+
+/// all sequences of length <= max_len over `alpha`
+pub fn seqs<T: Clone>(alpha: &[T], max_len: u32) -> Vec<Vec<T>> {
+    let k = alpha.len() as u64;
+    let mut out = vec![];
+    let mut idx = vec![];
+    for i in 0..crate::gen::seq_count(k, max_len) {
+        crate::gen::nth_seq(k, max_len, i, &mut idx);
+        out.push(idx.iter().map(|j| alpha[*j as usize].clone()).collect());
+    }
+    out
+}
+
+/// all subsets of `keys`, each key mapped by `val`
+pub fn submaps<K: Ord + Clone, V>(keys: &[K], val: impl Fn(usize, &K) -> V) -> Vec<BTreeMap<K, V>> {
+    (0..(1u32 << keys.len())).map(|m| keys.iter().enumerate().filter(|(i, _)| m & (1 << i) != 0).map(|(i, k)| (k.clone(), val(i, k))).collect()).collect()
+}
+
+/// +-2^k, +-2^k+-1, +-10^k, +-10^k+-1 within i128, filtered by the caller
+pub fn boundary_ints() -> Vec<i128> {
+    let mut v: Vec<i128> = vec![0];
+    for k in 0..127u32 {
+        let p = 1i128 << k;
+        for d in [-1i128, 0, 1] {
+            v.push(p + d);
+            v.push(-(p + d));
+        }
+    }
+    let mut t = 1i128;
+    for _ in 0..38 {
+        for d in [-1i128, 0, 1] {
+            v.push(t + d);
+            v.push(-(t + d));
+        }
+        t *= 10;
+    }
+    v.push(i128::MIN);
+    v.push(i128::MAX);
+    v.sort();
+    v.dedup();
+    v
+}
+macro_rules! ints_in {
+    ($t:ty) => {
+        boundary_ints().into_iter().filter_map(|x| <$t>::try_from(x).ok()).collect::<Vec<$t>>()
+    };
+}
+fn boundary_u128() -> Vec<u128> {
+    let mut v: Vec<u128> = boundary_ints().into_iter().filter_map(|x| u128::try_from(x).ok()).collect();
+    for k in 126..128u32 {
+        let p = 1u128 << k;
+        v.extend([p - 1, p, p + 1]);
+    }
+    v.push(u128::MAX);
+    v.push(u128::MAX - 1);
+    v
+}
+
+pub const STR_CHARS: &[char] = &['a', '"', '\\', '\n', '\u{1}', '\u{e9}', '\u{1f600}', '/'];
+pub fn short_strings(max_len: u32) -> Vec<String> {
+    seqs(STR_CHARS, max_len).into_iter().map(|cs| cs.into_iter().collect()).collect()
+}
+/// a special character at the end / start of plain runs of every length (escape-scanner blocks)
+pub fn long_strings() -> Vec<String> {
+    let mut v = vec![];
+    for n in 0..=70usize {
+        for c in ['"', '\\', '\u{1f}', '\u{e9}'] {
+            v.push(format!("{}{}", "p".repeat(n), c));
+            v.push(format!("{}{}{}", c, "q".repeat(n), c));
+        }
+    }
+    v
+}
+fn f32_patterns() -> Vec<f32> {
+    let mut v = vec![];
+    for e in 0..255u32 {
+        for m in [0u32, 1, 2, 0x7f_ffff, 0x40_0000, 0x2a_aaaa, 0x55_5555, 0x12_3456] {
+            for s in [0u32, 1 << 31] {
+                v.push(f32::from_bits(s | (e << 23) | m));
+            }
+        }
+    }
+    v
+}
+fn f64_deep() -> Vec<f64> {
+    crate::props::c08::f64_patterns().into_iter().step_by(7).map(f64::from_bits).filter(|f| f.is_finite()).collect()
+}
+
+fam!(i8, "i8", vec![i8::MIN, -1, 0, 1, i8::MAX], deep (i8::MIN..=i8::MAX).collect::<Vec<_>>());
+fam!(i16, "i16", vec![i16::MIN, -129, -1, 0, 255, i16::MAX], deep (i16::MIN..=i16::MAX).collect::<Vec<_>>());
+fam!(i32, "i32", vec![i32::MIN, -32769, 0, 65536, i32::MAX], deep ints_in!(i32));
+fam!(i64, "i64", vec![i64::MIN, i64::MIN + 1, -(1 << 53) - 1, -1, 0, 1 << 53, i64::MAX], deep ints_in!(i64));
+fam!(i128, "i128", vec![i128::MIN, i64::MIN as i128 - 1, i64::MIN as i128, -1, 0, u64::MAX as i128, u64::MAX as i128 + 1, i128::MAX], deep boundary_ints());
+fam!(u8, "u8", vec![0, 1, 127, 128, u8::MAX], deep (0..=u8::MAX).collect::<Vec<_>>());
+fam!(u16, "u16", vec![0, 256, u16::MAX], deep (0..=u16::MAX).collect::<Vec<_>>());
+fam!(u32, "u32", vec![0, 65536, u32::MAX], deep ints_in!(u32));
+fam!(u64, "u64", vec![0, 1, (1 << 53) + 1, i64::MAX as u64, i64::MAX as u64 + 1, u64::MAX], deep ints_in!(u64));
+fam!(u128, "u128", vec![0, u64::MAX as u128, u64::MAX as u128 + 1, 10u128.pow(38), u128::MAX], deep boundary_u128());
+fam!(f32, "f32", vec![0.0, -0.0, 1.0, -1.5, 0.1, f32::MIN_POSITIVE, f32::MAX, f32::MIN, 16777216.0, 1e-45, 3.4028235e38], deep f32_patterns());
+fam!(f64, "f64", vec![0.0, -0.0, 1.0, -1.5, 0.1, 1e21, 1e-7, f64::MIN_POSITIVE, 5e-324, f64::MAX, f64::MIN, 9007199254740993.0, 1.7976931348623157e308], deep f64_deep());
 fam!(bool, "bool", vec![true, false]);
-fam!(char, "char", vec!['a', '"', '\\', '\n', '\u{0}', '\u{1f}', '\u{7f}', '\u{e9}', '\u{ffff}', '\u{1f600}']);
+fam!(char, "char", vec!['a', '"', '\\', '\n', '\u{0}', '\u{1f}', '\u{7f}', '\u{e9}', '\u{ffff}', '\u{1f600}'], deep (0..0x11_0000u32).filter_map(char::from_u32).collect::<Vec<_>>());
 fam!(String, "String", vec![
     "".into(), "a".into(), "\"".into(), "\\".into(), "\n\t\r\u{8}\u{c}".into(), "\u{0}\u{1f}\u{7f}".into(), "\u{e9}\u{1f600}".into(),
     "x".repeat(31), "y".repeat(32), format!("{}\"", "z".repeat(63)), "1".into(), "true".into(), "null".into()
-]);
+], deep { let mut v = short_strings(4); v.extend(long_strings()); v });
 fam!((), "unit", vec![()]);
-fam!(Option<u8>, "Option<u8>", vec![None, Some(0), Some(255)]);
+fam!(Option<u8>, "Option<u8>", vec![None, Some(0), Some(255)], deep (0..=u8::MAX).map(Some).collect::<Vec<_>>());
 fam!(Option<Option<bool>>, "Option<Option<bool>>", vec![None, Some(Some(true)), Some(Some(false))]);
-fam!(Option<String>, "Option<String>", vec![None, Some("".into()), Some("null".into())]);
-fam!((u8, String), "(u8,String)", vec![(0, "".into()), (255, "a\"b".into())]);
-fam!((i64, f64, bool), "(i64,f64,bool)", vec![(i64::MIN, -0.0, true), (0, 1.5, false)]);
-fam!([i16; 3], "[i16;3]", vec![[0, 0, 0], [i16::MIN, -1, i16::MAX]]);
-fam!(Vec<i32>, "Vec<i32>", vec![vec![], vec![0], vec![i32::MIN, i32::MAX], vec![1; 40]]);
-fam!(Vec<Option<String>>, "Vec<Option<String>>", vec![vec![], vec![None], vec![Some("a".into()), None, Some("\n".into())]]);
-fam!(Vec<Vec<u8>>, "Vec<Vec<u8>>", vec![vec![], vec![vec![]], vec![vec![1, 2], vec![], vec![255]]]);
-fam!(Vec<f64>, "Vec<f64>", vec![vec![], vec![0.5, -0.0, 1e300], vec![1.0; 17]]);
+fam!(Option<String>, "Option<String>", vec![None, Some("".into()), Some("null".into())], deep short_strings(3).into_iter().map(Some).collect::<Vec<_>>());
+fam!((u8, String), "(u8,String)", vec![(0, "".into()), (255, "a\"b".into())], deep { let mut v = vec![]; for a in [0u8, 9, 255] { for b in short_strings(2) { v.push((a, b)); } } v });
+fam!((i64, f64, bool), "(i64,f64,bool)", vec![(i64::MIN, -0.0, true), (0, 1.5, false)], deep { let mut v = vec![]; for a in [i64::MIN, -1, 0, i64::MAX] { for b in [0.0f64, -0.0, 1.5, 1e300, 5e-324, -2.5e-7] { for c in [true, false] { v.push((a, b, c)); } } } v });
+fam!([i16; 3], "[i16;3]", vec![[0, 0, 0], [i16::MIN, -1, i16::MAX]], deep seqs(&[i16::MIN, -1, 0, i16::MAX], 3).into_iter().filter(|s| s.len() == 3).map(|s| [s[0], s[1], s[2]]).collect::<Vec<_>>());
+fam!(Vec<i32>, "Vec<i32>", vec![vec![], vec![0], vec![i32::MIN, i32::MAX], vec![1; 40]], deep seqs(&[i32::MIN, -1, 0, i32::MAX], 4));
+fam!(Vec<Option<String>>, "Vec<Option<String>>", vec![vec![], vec![None], vec![Some("a".into()), None, Some("\n".into())]], deep seqs(&[None, Some(String::new()), Some("\"".to_string()), Some("\u{e9}\n".to_string())], 4));
+fam!(Vec<Vec<u8>>, "Vec<Vec<u8>>", vec![vec![], vec![vec![]], vec![vec![1, 2], vec![], vec![255]]], deep seqs(&[vec![], vec![0u8], vec![255u8, 1]], 4));
+fam!(Vec<f64>, "Vec<f64>", vec![vec![], vec![0.5, -0.0, 1e300], vec![1.0; 17]], deep seqs(&[0.5f64, -0.0, 1e300, 5e-324], 3));
 
 fn bm<K: Ord, V>(v: Vec<(K, V)>) -> BTreeMap<K, V> {
     v.into_iter().collect()
 }
-fam!(BTreeMap<String, i32>, "BTreeMap<String,i32>", vec![bm(vec![]), bm(vec![("a".into(), 1)]), bm(vec![("".into(), 0), ("a\"\n".into(), -1), ("\u{e9}".into(), i32::MAX)])]);
-fam!(BTreeMap<i32, bool>, "BTreeMap<i32,bool>", vec![bm(vec![]), bm(vec![(0, true)]), bm(vec![(i32::MIN, false), (-1, true), (i32::MAX, true)])]);
-fam!(BTreeMap<u64, u8>, "BTreeMap<u64,u8>", vec![bm(vec![(0, 0)]), bm(vec![(u64::MAX, 255), (1, 1)])]);
-fam!(BTreeMap<i128, u8>, "BTreeMap<i128,u8>", vec![bm(vec![(0, 0)]), bm(vec![(i128::MIN, 1), (u64::MAX as i128 + 1, 2)])]);
-fam!(BTreeMap<bool, u8>, "BTreeMap<bool,u8>", vec![bm(vec![]), bm(vec![(true, 1), (false, 0)])]);
-fam!(BTreeMap<char, u8>, "BTreeMap<char,u8>", vec![bm(vec![('a', 1)]), bm(vec![('"', 1), ('\u{e9}', 2), ('\n', 3)])]);
-fam!(BTreeMap<UnitEnum, u8>, "BTreeMap<UnitEnum,u8>", vec![bm(vec![]), bm(vec![(UnitEnum::A, 1), (UnitEnum::B, 2)])]);
-fam!(BTreeMap<String, Vec<Option<bool>>>, "BTreeMap<String,Vec<Option<bool>>>", vec![bm(vec![("k".into(), vec![])]), bm(vec![("a".into(), vec![None, Some(true)]), ("b".into(), vec![Some(false)])])]);
+fam!(BTreeMap<String, i32>, "BTreeMap<String,i32>", vec![bm(vec![]), bm(vec![("a".into(), 1)]), bm(vec![("".into(), 0), ("a\"\n".into(), -1), ("\u{e9}".into(), i32::MAX)])], deep submaps(&["".to_string(), "a".into(), "\"".into(), "\n".into(), "\u{e9}".into(), "a\\".into(), "b".repeat(40)], |i, _| [0, -1, i32::MAX, i32::MIN][i % 4]));
+fam!(BTreeMap<i32, bool>, "BTreeMap<i32,bool>", vec![bm(vec![]), bm(vec![(0, true)]), bm(vec![(i32::MIN, false), (-1, true), (i32::MAX, true)])], deep submaps(&[i32::MIN, -1, 0, 1, 10, i32::MAX], |i, _| i % 2 == 0));
+fam!(BTreeMap<u64, u8>, "BTreeMap<u64,u8>", vec![bm(vec![(0, 0)]), bm(vec![(u64::MAX, 255), (1, 1)])], deep submaps(&[0u64, 1, 1 << 53, i64::MAX as u64 + 1, u64::MAX], |i, _| i as u8));
+fam!(BTreeMap<i128, u8>, "BTreeMap<i128,u8>", vec![bm(vec![(0, 0)]), bm(vec![(i128::MIN, 1), (u64::MAX as i128 + 1, 2)])], deep submaps(&[i128::MIN, i64::MIN as i128 - 1, -1, 0, u64::MAX as i128 + 1, i128::MAX], |i, _| i as u8));
+fam!(BTreeMap<bool, u8>, "BTreeMap<bool,u8>", vec![bm(vec![]), bm(vec![(true, 1), (false, 0)])], deep submaps(&[false, true], |i, _| i as u8));
+fam!(BTreeMap<char, u8>, "BTreeMap<char,u8>", vec![bm(vec![('a', 1)]), bm(vec![('"', 1), ('\u{e9}', 2), ('\n', 3)])], deep submaps(&['a', '"', '\\', '\n', '\u{1}', '\u{e9}', '\u{1f600}'], |i, _| i as u8));
+fam!(BTreeMap<UnitEnum, u8>, "BTreeMap<UnitEnum,u8>", vec![bm(vec![]), bm(vec![(UnitEnum::A, 1), (UnitEnum::B, 2)])], deep submaps(&[UnitEnum::A, UnitEnum::B, UnitEnum::C], |i, _| i as u8));
+fam!(BTreeMap<String, Vec<Option<bool>>>, "BTreeMap<String,Vec<Option<bool>>>", vec![bm(vec![("k".into(), vec![])]), bm(vec![("a".into(), vec![None, Some(true)]), ("b".into(), vec![Some(false)])])], deep submaps(&["k".to_string(), "\"".into(), "".into()], |i, _| seqs(&[None, Some(true), Some(false)], 2)[(i * 5 + 3) % 13].clone()));
 
 #[derive(Serialize, Deserialize, PartialEq, Eq, PartialOrd, Ord, Debug, Clone, Copy)]
 pub enum UnitEnum {
@@ -78,11 +185,11 @@ fam!(UnitStruct, "UnitStruct", vec![UnitStruct]);
 
 #[derive(Serialize, Deserialize, PartialEq, Debug)]
 pub struct Newtype(pub u16);
-fam!(Newtype, "Newtype(u16)", vec![Newtype(0), Newtype(u16::MAX)]);
+fam!(Newtype, "Newtype(u16)", vec![Newtype(0), Newtype(u16::MAX)], deep (0..=u16::MAX).map(Newtype).collect::<Vec<_>>());
 
 #[derive(Serialize, Deserialize, PartialEq, Debug)]
 pub struct TupleStruct(pub i8, pub String);
-fam!(TupleStruct, "TupleStruct(i8,String)", vec![TupleStruct(-1, "".into()), TupleStruct(i8::MAX, "q".into())]);
+fam!(TupleStruct, "TupleStruct(i8,String)", vec![TupleStruct(-1, "".into()), TupleStruct(i8::MAX, "q".into())], deep { let mut v = vec![]; for a in [i8::MIN, -1, 0, i8::MAX] { for b in short_strings(2) { v.push(TupleStruct(a, b)); } } v });
 
 #[derive(Serialize, Deserialize, PartialEq, Debug)]
 pub struct Plain {
@@ -95,7 +202,19 @@ pub struct Plain {
 fam!(Plain, "struct Plain", vec![
     Plain { a: 0, b: "".into(), c: None, d: vec![] },
     Plain { a: 255, b: "s\"".into(), c: Some(true), d: vec![-1, 1] }
-]);
+], deep {
+    let mut v = vec![];
+    for a in [0u8, 7, 255] {
+        for b in short_strings(1) {
+            for c in [None, Some(true), Some(false)] {
+                for d in [vec![], vec![0i16], vec![i16::MIN, i16::MAX, -1]] {
+                    v.push(Plain { a, b: b.clone(), c, d });
+                }
+            }
+        }
+    }
+    v
+});
 
 #[derive(Serialize, Deserialize, PartialEq, Debug)]
 #[serde(deny_unknown_fields)]
@@ -104,7 +223,16 @@ pub struct Strict {
     #[serde(rename = "b-b")]
     pub b: Option<String>,
 }
-fam!(Strict, "struct Strict(deny_unknown_fields)", vec![Strict { a: -1, b: None }, Strict { a: 7, b: Some("x".into()) }]);
+fam!(Strict, "struct Strict(deny_unknown_fields)", vec![Strict { a: -1, b: None }, Strict { a: 7, b: Some("x".into()) }], deep {
+    let mut v = vec![];
+    for a in [i32::MIN, -1, 0, i32::MAX] {
+        v.push(Strict { a, b: None });
+        for b in short_strings(2) {
+            v.push(Strict { a, b: Some(b) });
+        }
+    }
+    v
+});
 
 #[derive(Serialize, Deserialize, PartialEq, Debug)]
 pub struct Nested {
@@ -137,7 +265,34 @@ fam!(Shapes, "enum Shapes", vec![
     Shapes::Struct { a: false, b: Some(9) },
     Shapes::NewVec(vec![]),
     Shapes::NewVec(vec![Shapes::Unit, Shapes::New(0)])
-]);
+], deep {
+    let leaf = || -> Vec<Shapes> {
+        let mut v = vec![Shapes::Unit];
+        for x in [i64::MIN, -1, 0, 1 << 53, i64::MAX] {
+            v.push(Shapes::New(x));
+        }
+        for a in [0u8, 255] {
+            for b in short_strings(1) {
+                v.push(Shapes::Tup(a, b));
+            }
+        }
+        for a in [true, false] {
+            for b in [None, Some(0u8), Some(255)] {
+                v.push(Shapes::Struct { a, b });
+            }
+        }
+        v
+    };
+    let mut v = leaf();
+    // vectors of up to two leaves, and one level of nesting
+    let l = leaf();
+    for i in 0..l.len() {
+        v.push(Shapes::NewVec(vec![leaf().swap_remove(i)]));
+        let j = (i * 7 + 3) % l.len();
+        v.push(Shapes::NewVec(vec![leaf().swap_remove(i), Shapes::NewVec(vec![leaf().swap_remove(j)]), leaf().swap_remove(j)]));
+    }
+    v
+});
 
 #[derive(Serialize, Deserialize, PartialEq, Debug)]
 #[serde(tag = "t")]
@@ -146,7 +301,18 @@ pub enum Internal {
     B { y: String, z: Option<i32> },
     C,
 }
-fam!(Internal, "enum Internal(tag)", vec![Internal::A { x: 1 }, Internal::B { y: "y".into(), z: None }, Internal::B { y: "".into(), z: Some(-5) }, Internal::C]);
+fam!(Internal, "enum Internal(tag)", vec![Internal::A { x: 1 }, Internal::B { y: "y".into(), z: None }, Internal::B { y: "".into(), z: Some(-5) }, Internal::C], deep {
+    let mut v = vec![];
+    for x in [0u8, 1, 255] {
+        v.push(Internal::A { x });
+    }
+    for y in short_strings(2) {
+        for z in [None, Some(i32::MIN), Some(0), Some(i32::MAX)] {
+            v.push(Internal::B { y: y.clone(), z });
+        }
+    }
+    v
+});
 
 #[derive(Serialize, Deserialize, PartialEq, Debug)]
 #[serde(tag = "t", content = "c")]
@@ -156,7 +322,21 @@ pub enum Adjacent {
     C,
     D(i8, bool),
 }
-fam!(Adjacent, "enum Adjacent(tag,content)", vec![Adjacent::A(3), Adjacent::B { y: "q".into() }, Adjacent::C, Adjacent::D(-1, true)]);
+fam!(Adjacent, "enum Adjacent(tag,content)", vec![Adjacent::A(3), Adjacent::B { y: "q".into() }, Adjacent::C, Adjacent::D(-1, true)], deep {
+    let mut v = vec![];
+    for x in 0..=u8::MAX {
+        v.push(Adjacent::A(x));
+    }
+    for y in short_strings(2) {
+        v.push(Adjacent::B { y });
+    }
+    for a in [i8::MIN, -1, 0, i8::MAX] {
+        for b in [true, false] {
+            v.push(Adjacent::D(a, b));
+        }
+    }
+    v
+});
 
 #[derive(Serialize, Deserialize, PartialEq, Debug)]
 #[serde(untagged)]
@@ -167,7 +347,20 @@ pub enum Untagged {
     M { k: bool },
     N(()),
 }
-fam!(Untagged, "enum Untagged", vec![Untagged::I(-7), Untagged::S("s".into()), Untagged::V(vec![1, 2]), Untagged::M { k: true }, Untagged::N(())]);
+fam!(Untagged, "enum Untagged", vec![Untagged::I(-7), Untagged::S("s".into()), Untagged::V(vec![1, 2]), Untagged::M { k: true }, Untagged::N(())], deep {
+    let mut v = vec![];
+    for x in ints_in!(i64) {
+        v.push(Untagged::I(x));
+    }
+    for y in short_strings(2) {
+        v.push(Untagged::S(y));
+    }
+    for b in seqs(&[0u8, 1, 255], 3) {
+        v.push(Untagged::V(b));
+    }
+    v.push(Untagged::M { k: false });
+    v
+});
 
 #[derive(Serialize, Deserialize, PartialEq, Debug)]
 pub struct Flat {
@@ -175,16 +368,52 @@ pub struct Flat {
     #[serde(flatten)]
     pub rest: BTreeMap<String, i64>,
 }
-fam!(Flat, "struct Flat(flatten)", vec![Flat { id: 1, rest: bm(vec![]) }, Flat { id: 2, rest: bm(vec![("x".into(), -1), ("y".into(), 1 << 40)]) }]);
+fam!(Flat, "struct Flat(flatten)", vec![Flat { id: 1, rest: bm(vec![]) }, Flat { id: 2, rest: bm(vec![("x".into(), -1), ("y".into(), 1 << 40)]) }], deep {
+    let mut v = vec![];
+    for id in [0u32, 1, u32::MAX] {
+        for rest in submaps(&["x".to_string(), "".into(), "\"".into(), "idx".into()], |i, _| [0i64, -1, 1 << 40, i64::MIN][i % 4]) {
+            v.push(Flat { id, rest });
+        }
+    }
+    v
+});
 
 #[derive(Serialize, Deserialize, PartialEq, Debug)]
 pub struct Bytes1 {
     #[serde(with = "serde_bytes")]
     pub b: Vec<u8>,
 }
-fam!(Bytes1, "struct{serde_bytes}", vec![Bytes1 { b: vec![] }, Bytes1 { b: vec![0, 34, 92, 255] }]);
+fam!(Bytes1, "struct{serde_bytes}", vec![Bytes1 { b: vec![] }, Bytes1 { b: vec![0, 34, 92, 255] }], deep seqs(&[0u8, 34, 92, 255], 4).into_iter().map(|b| Bytes1 { b }).collect::<Vec<_>>());
 
-fam!(Box<[u8]>, "Box<[u8]>", vec![vec![].into_boxed_slice(), vec![0u8, 255].into_boxed_slice()]);
+/// names that need escaping when written (field, variant and struct-variant field names)
+#[derive(Serialize, Deserialize, PartialEq, Debug)]
+pub struct Renamed {
+    #[serde(rename = "say \"hi\"")]
+    pub a: u8,
+    #[serde(rename = "C:\\dir\n")]
+    pub b: Option<String>,
+    #[serde(rename = "\u{e9}\u{1f}")]
+    pub c: bool,
+}
+fam!(Renamed, "struct Renamed(escaped names)", vec![Renamed { a: 7, b: None, c: true }, Renamed { a: 0, b: Some("x\"".into()), c: false }]);
+
+#[derive(Serialize, Deserialize, PartialEq, Debug)]
+pub enum RenamedEnum {
+    #[serde(rename = "v\"1")]
+    V {
+        #[serde(rename = "f\\1\t")]
+        f: u8,
+    },
+    #[serde(rename = "t\t")]
+    T(u8, bool),
+    #[serde(rename = "n\n")]
+    N(String),
+    #[serde(rename = "u\u{0}")]
+    U,
+}
+fam!(RenamedEnum, "enum RenamedEnum(escaped names)", vec![RenamedEnum::V { f: 1 }, RenamedEnum::T(2, true), RenamedEnum::N("s".into()), RenamedEnum::U]);
+
+fam!(Box<[u8]>, "Box<[u8]>", vec![vec![].into_boxed_slice(), vec![0u8, 255].into_boxed_slice()], deep seqs(&[0u8, 34, 92, 255], 4).into_iter().map(|b| b.into_boxed_slice()).collect::<Vec<_>>());
 
 fam!(serde_json::Value, "serde_json::Value", vec![
     serde_json::json!(null),
@@ -249,6 +478,8 @@ macro_rules! for_each_fam {
         $m!($crate::types::Untagged);
         $m!($crate::types::Flat);
         $m!($crate::types::Bytes1);
+        $m!($crate::types::Renamed);
+        $m!($crate::types::RenamedEnum);
         $m!(Box<[u8]>);
         $m!(serde_json::Value);
     };
